@@ -193,7 +193,8 @@ class PlanarCurve(BaseCurve):
     def __or__(self, other: PlanarCurve) -> PlanarCurve:
         """Computes the union of two bezier curves"""
         assert isinstance(other, PlanarCurve)
-        assert self.degree == other.degree
+        if self.degree != other.degree:
+            raise ValueError("Union is not a bezier curve!")
         assert self.ctrlpoints[-1] == other.ctrlpoints[0]
         # Last point of first derivative
         dapt = self.ctrlpoints[-1] - self.ctrlpoints[-2]
